@@ -136,7 +136,9 @@ func runC19(r *engine.Run) {
 	r.Rule("AGREE-progression", "the three walks over the levels (size computation, builder, prover) step with the same expressions: next level size = ceil(size/2), next level offset = offset + size; verifier and prover halve the index the same way; the prover (which handles the leaf level before its loop) stops one level size later than the builder")
 	r.Rule("DOM-inlevel", "the prover reads the element after an even index only under the strict test that this element still lies inside the current level (index + 1 < level start + level size, with the level size the walk itself uses)")
 	r.Rule("DEP-offered", "verification recomputes the root from the offered leaf hash: VerifyMerklePath starts its running hash from its hash argument and compares the result with its root argument; VerifyPath hands it GetHash() of the offered node, the offered path and the tree's own root (a verifier that starts from the stored leaf only checks membership, so a path proves every leaf); that comparison is the only comparison of hash strings in the verifier (no other equality between path elements or running hashes decides acceptance); VerifyPath returns nothing but that verifier's result; neither verifier stores through its parameters (a path can be verified again)")
-	r.Rule("AGREE-shape", "ComputeTree and SetTree establish the same three fields from computeSize; a path has levels - 1 elements; the root is the last element of the tree")
+	r.Rule("PURE-query", "the queries of a built tree (GetPathByIndex, GetPath, GetLeafIndex, VerifyPath, GetRoot, GetTree) store nothing into the tree object or into memory reached through its fields: a query that fills a cache publishes a half-built entry to the goroutines asking at the same time (paths that do not verify, nil dereferences)")
+	r.Rule("REF-callerleaves", "ComputeTree keeps no reference to its argument slice in the tree object (it stores the leaf hashes, not the caller's leaf list): a lookup that consults the caller's slice answers with whatever the caller made of it since")
+	r.Rule("AGREE-shape", "ComputeTree and SetTree establish the same fields (at least leavesCount, levels, tree) from computeSize; a path has levels - 1 elements; the root is the last element of the tree")
 	r.Rule("FRESH-tree", "GetTree hands out the node slice and SetTree installs the caller's slice without copying, so a method that stores nodes element by element (ComputeTree) assigns the tree field only from a make: recomputing never writes into memory an exported or loaded tree still uses")
 	r.Rule("DOM-atomic", "in SetTree no store to a receiver field can be followed by an error return: a rejected load leaves the tree (nodes, leaf count, levels) exactly as it was")
 	r.Rule("PURE-state", "no function of the Merkle tree files stores to a package-level variable or appends/copies into memory obtained from one: building and verifying are re-entrant")
@@ -155,6 +157,8 @@ func runC19(r *engine.Run) {
 	c19Pairing(r, verify, build, prove)
 	c19Progression(r, verify, build, prove, size)
 	c19Shape(r, build)
+	pureQuery(r, "PURE-query")
+	refCallerLeaves(r, "REF-callerleaves")
 	c19Offered(r, verify)
 	c19FreshTree(r, "FRESH-tree")
 	c19SetTreeAtomic(r, "DOM-atomic")
@@ -498,7 +502,8 @@ func c19Shape(r *engine.Run, build *ssa.Function) {
 	}
 	if set != nil {
 		a, b := fieldsStored(build), fieldsStored(set)
-		r.Check(a == b && a == "{leavesCount, levels, tree}", rule, "ComputeTree/SetTree fields", r.P.Pos(set.Pos()), "both establish "+a, "ComputeTree establishes "+a+" but SetTree "+b+": a loaded tree yields different paths than the computed one")
+		// further fields (a cache, say) are fine when both establish them
+		r.Check(a == b && strings.Contains(a, "leavesCount") && strings.Contains(a, "levels") && strings.Contains(a, "tree"), rule, "ComputeTree/SetTree fields", r.P.Pos(set.Pos()), "both establish "+a, "ComputeTree establishes "+a+" but SetTree "+b+": a loaded tree yields different paths than the computed one")
 	}
 	if prove != nil {
 		good := false
